@@ -13,6 +13,9 @@ and, after every action, on every configured port:
     a failing start raises OSError and leaves is_running and the listening set as before the call;
     stop never raises; a body exception propagates and the bridge is stopped.
 A breadth-first search over (model state, bridge object fingerprint) runs to a fixpoint.
+TLA+ conformance: TLC checks tla/BridgeLifecycle.tla (invariants = the statement's clauses) for 1, 2 and 3 ports and
+dumps its complete state graph; every edge is replayed on a real bridge and the observed (running, listening set,
+occupied set) compared with the model's source and target state.
 Twin bridges: two bridges in one process (each on its own port, and - second family - both on the same port), all sequences of their starts and stops to
 depth 4 (6): one bridge's start/stop never changes the other's flag, port or deliveries.
 In-flight datagrams: one user task starts the bridge, sends 1..3 broadcasts, lets k = 0..8 (thorough 16)
@@ -490,6 +493,62 @@ def twin(res, actions):
             a.loop.finish()
 
 
+TLA_ACTION = {"StartOk": "start", "StartFail": "start", "Stop": "stop", "CtxOk": "ctx_ok", "CtxFail": "ctx_ok"}
+
+
+def tla_conformance(res, nports):
+    """TLC explores tla/BridgeLifecycle.tla completely (its invariants are the statement's clauses); every edge
+    of its reachable state graph is then replayed on a real bridge and the observed (running, listening,
+    occupied) is compared with the model's source and target states."""
+    from mc import tla
+
+    if not tla.available():
+        res.notes.append("tlc not on PATH: TLA+ conformance part skipped")
+        return
+    try:
+        states, edges, init, summary = tla.state_graph("BridgeLifecycle", {"Ports": "{" + ", ".join(map(str, range(nports))) + "}"})
+    except Exception as exc:  # noqa: BLE001 - the TLA+ part is an addition; without a working TLC it is skipped, never failed
+        res.notes.append(f"TLC run failed, TLA+ conformance part skipped: {str(exc)[:200]}")
+        return
+    paths = tla.shortest_paths(states, edges, init)
+    res.add("tla", (nports, len(states), len(edges), summary))
+
+    def name(a, arg):
+        return TLA_ACTION.get(a) or (("occupy" if a == "Occupy" else "release") + str(arg))
+
+    def observe(wd):
+        wd.bw.settle()
+        occ = frozenset(wd.foreign)
+        lis = frozenset(i for i in range(nports) if i not in occ and not can_bind(wd.ports[i]))
+        return {"running": wd.bw.bridge.is_running, "listening": lis, "occupied": occ}
+
+    for src, a, arg, dst in edges:
+        actions = [name(x, y) for x, y in paths[src]] + [name(a, arg)]
+        case = {"part": "tla", "nports": nports, "actions": actions, "edge": [a, arg]}
+        set_zone("UTC")
+        with Clock(1_700_000_000.0), Capture():
+            wd = World(nports)
+            try:
+                ok = True
+                for n, act in enumerate(actions[:-1]):
+                    ok = wd.step(act, res, case, n) and ok
+                before = observe(wd)
+                if ok and before != states[src]:
+                    res.violation("tla-conformance:source-state", case, f"after {actions[:-1]} the bridge shows {before}, the model state is {states[src]}")
+                    ok = False
+                if ok:
+                    ok = wd.step(actions[-1], res, case, len(actions) - 1)
+                    after = observe(wd)
+                    if ok and after != states[dst]:
+                        res.violation(f"tla-conformance:{a}", case, f"model edge {a}{'' if arg is None else '(%d)' % arg} from {states[src]} leads to {states[dst]}; the bridge shows {after}")
+                res.traces += 1
+                res.case(("tla", nports, tuple(actions)))
+                res.state(("tla", nports, tuple(sorted((k, tuple(sorted(v)) if isinstance(v, frozenset) else v) for k, v in states[dst].items()))))
+                res.transition(("tla", nports, src, a, arg, dst))
+            finally:
+                wd.close()
+
+
 def plan(tier):
     return [(1, 4 if tier == "quick" else 6), (2, 4 if tier == "quick" else 5)] + ([(3, 4)] if tier == "thorough" else [(3, 3)])
 
@@ -505,6 +564,8 @@ def jobs(tier, seed):
     for nports in (1, 2):
         js.append({"part": "bfs", "nports": nports})
     js.append({"part": "four"})
+    for nports in (1, 2, 3):
+        js.append({"part": "tla", "nports": nports})
     js.append({"part": "inflight", "tier": tier})
     js.append({"part": "twin", "depth": 4 if tier == "quick" else 6})
     return js
@@ -515,6 +576,10 @@ def run_job(job):
     if job["part"] == "bfs":
         closed, n, d = bfs(job["nports"], res)
         res.add("bfs", (job["nports"], closed, n, d))
+        return res
+    if job["part"] == "tla":
+        tla_conformance(res, job["nports"])
+        res.sample({"part": "tla", "model": "tla/BridgeLifecycle.tla", "ports": job["nports"], "edge": "Occupy(0) then StartFail: self-loop, OSError, nothing bound"})
         return res
     if job["part"] == "twin":
         acts = ["startA", "stopA", "startB", "stopB"]
@@ -561,6 +626,10 @@ def run_job(job):
 
 def replay(case):
     res = Res()
+    if case.get("part") == "tla":
+        r2 = Res()
+        tla_conformance(r2, case["nports"])
+        return [v for v in r2.violations if v["case"].get("actions") == case["actions"]] or r2.violations
     if case.get("part") == "twin":
         twin(res, case["actions"])
         return res.violations
@@ -585,5 +654,6 @@ def finalize(merged, tier, seed):
         "depth_per_port_count": {str(n): d for n, d in plan(tier)},
         "bfs_fixpoint": [{"ports": n, "closed": c, "states": s, "depth_of_last_new_state": d} for n, c, s, d in b],
         "graph_closed": bool(b) and all(c for _, c, _, _ in b),
+        "tla_models": [{"ports": n, "model_states": st, "model_edges_replayed": ed, "tlc": summ} for n, st, ed, summ in sorted(merged.sets.get("tla", ()))],
         "space": "all enabled action sequences to the stated depth for 1, 2 and 3 ports + BFS fixpoint + a 4-port run",
     }
